@@ -936,3 +936,14 @@ M("c03-origin-default-hoisted", ["C05", "C03"], "break",
    ("yaep.c", "		continue;\n	      check_sit_orig = sit_orig;\n	      if (check_sit_ind < check_set_core->n_all_dists)", "		continue;\n	      if (check_sit_ind < check_set_core->n_all_dists)")], "C03-origin-fresh")
 M("c03-origin-default-else-benign", ["C05", "C03"], "benign",
   [("yaep.c", "		continue;\n	      check_sit_orig = sit_orig;\n	      if (check_sit_ind < check_set_core->n_all_dists)", "		continue;\n	      if (check_sit_ind >= check_set_core->n_all_dists)\n		check_sit_orig = sit_orig;\n	      if (check_sit_ind < check_set_core->n_all_dists)")])
+M("r14-local-base-kept-over-growth", ["C03", "C12"], "break",
+  [("yaep.c", "  struct parse_state *table_state, *parent_anode_state;\n", "  struct parse_state *table_state, *parent_anode_state;\n  struct parse_state **states;\n"),
+   ("yaep.c", "		      VLO_EXPAND (orig_states, sizeof (struct parse_state *));\n		      ((struct parse_state **) VLO_BOUND (orig_states))[-1]\n			= orig_state;", "		      VLO_EXPAND (orig_states, sizeof (struct parse_state *));\n		      states = (struct parse_state **) VLO_BEGIN (orig_states);\n		      states[0] = orig_state;"),
+   ("yaep.c", "		    if (((struct parse_state **)\n			 VLO_BEGIN (orig_states))[j]->pl_ind == sit_orig)", "		    if (states[j]->pl_ind == sit_orig)")], "R14")
+M("r14-local-base-retaken-benign", ["C03", "C12"], "benign",
+  [("yaep.c", "  struct parse_state *table_state, *parent_anode_state;\n", "  struct parse_state *table_state, *parent_anode_state;\n  struct parse_state **states;\n"),
+   ("yaep.c", "		  for (j = (VLO_LENGTH (orig_states)\n			    / sizeof (struct parse_state *) - 1); j >= 0; j--)\n		    if (((struct parse_state **)\n			 VLO_BEGIN (orig_states))[j]->pl_ind == sit_orig)", "		  states = (struct parse_state **) VLO_BEGIN (orig_states);\n		  for (j = (VLO_LENGTH (orig_states)\n			    / sizeof (struct parse_state *) - 1); j >= 0; j--)\n		    if (states[j]->pl_ind == sit_orig)")])
+M("c03-state-anode-node-without-state", ["C03"], "break",
+  [("yaep.c", "		      curr_state = ((struct parse_state **)\n				    VLO_BEGIN (orig_states))[j];\n		      anode = curr_state->anode;", "		      anode = ((struct parse_state **)\n			       VLO_BEGIN (orig_states))[j]->anode;")], "C03-state-anode")
+M("c03-state-anode-two-reads-benign", ["C03"], "benign",
+  [("yaep.c", "		      curr_state = ((struct parse_state **)\n				    VLO_BEGIN (orig_states))[j];\n		      anode = curr_state->anode;", "		      anode = ((struct parse_state **)\n			       VLO_BEGIN (orig_states))[j]->anode;\n		      curr_state = ((struct parse_state **)\n				    VLO_BEGIN (orig_states))[j];")])
